@@ -32,6 +32,18 @@ by env C12_SCRIPT (default: c12_script.json next to the log), an object keyed by
                        SKIP/TODO directive (lines that do carry a directive keep a '#'-free description: what a
                        directive after such a description means is disputed between TAP versions)
     cap=S              hard lifetime cap in seconds (SIGALRM, default action), default 120
+    xml=MODE[/MODE...] (tests declared protocol: 'gtest'; meson appends --gtest_output=xml:FILE) what happens to FILE,
+                       indexed by iteration like dur=:  full: a well-formed googletest report that agrees with rc;
+                       lie: a well-formed report that contradicts rc (what a stale report of an earlier, different run
+                       looks like); cut: a report that stops in the middle (the program went down while writing it);
+                       empty: a zero-length file; garbage: bytes that are no XML at all; none: FILE is not touched (it
+                       may still be there from another iteration / invocation).  full, lie and cut write the cut-short
+                       report right after START, so that a probe killed before END leaves a half-written one
+    rust=K.R,K.R,...   print what a Rust libtest binary prints, one result line per item: K is the shape of the name
+                       (u unit test, n nested module path, p unit test decorated "- should panic", d doctest,
+                       dp / dc / dn doctest decorated "- should panic" / "- compile fail" / "- compile"), R is ok |
+                       fail (FAILED) | ign (ignored) | ignr (ignored, with a reason); then the failures section and
+                       the "test result:" line.  The exit status stays rc= (libtest: 101 iff some test failed)
     leak=MS            right after START fork a helper that inherits stdout/stderr (keeps the harness' pipes open),
                        logs CSTART (its own pid, "ppid": the probe), sleeps MS and logs CEND; the probe itself goes
                        on as scripted (usually: exits at once).  leakterm=default|ignore: the helper's SIGTERM
@@ -78,6 +90,75 @@ def helper(fd: int, tid: str, it: int, ppid: int, leak_ms: float, leakterm: str,
         os._exit(0)
 
 
+def write_file(path: str, data: bytes) -> None:
+    try:
+        fd = os.open(path, os.O_WRONLY | os.O_CREAT | os.O_TRUNC, 0o644)
+        try:
+            os.write(fd, data)
+        finally:
+            os.close(fd)
+    except OSError:
+        pass
+
+
+def write_report(path: str, tid: str, passed: bool, cut: bool) -> None:
+    """A googletest XML report (the layout gtest 1.1x writes); cut=True stops in the middle of the first testcase."""
+    nfail = 0 if passed else 1
+    stamp = '2024-01-01T00:00:00.000'
+    head = ('<?xml version="1.0" encoding="UTF-8"?>\n'
+            '<testsuites tests="2" failures="%d" disabled="0" errors="0" time="0.001" timestamp="%s" name="AllTests">\n'
+            '  <testsuite name="Probe_%s" tests="2" failures="%d" disabled="0" skipped="0" errors="0" time="0.001" '
+            'timestamp="%s">\n'
+            '    <testcase name="first" file="probe.cc" line="10" status="run" result="completed" time="0." '
+            % (nfail, stamp, tid, nfail, stamp))
+    tail = ('timestamp="%s" classname="Probe_%s" />\n'
+            '    <testcase name="second" file="probe.cc" line="20" status="run" result="completed" time="0." '
+            'timestamp="%s" classname="Probe_%s"' % (stamp, tid, stamp, tid))
+    if passed:
+        tail += ' />\n'
+    else:
+        tail += ('>\n      <failure message="probe.cc:21&#x0A;Expected equality of these values:&#x0A;  1&#x0A;  2" '
+                 'type=""><![CDATA[probe.cc:21\nExpected equality of these values:\n  1\n  2]]></failure>\n'
+                 '    </testcase>\n')
+    tail += '  </testsuite>\n</testsuites>\n'
+    write_file(path, (head if cut else head + tail).encode())
+
+
+_RUST_NAMES = {'u': 'tests::case_%d', 'n': 'net::proto::tests::handles_case_%d', 'p': 'tests::rejects_%d - should panic',
+               'd': 'src/lib.rs - add (line %d)', 'dp': 'src/lib.rs - div (line %d) - should panic',
+               'dc': 'src/lib.rs - typed::Meters (line %d) - compile fail', 'dn': 'src/net.rs - connect (line %d) - compile'}
+_RUST_RES = {'ok': 'ok', 'fail': 'FAILED', 'ign': 'ignored', 'ignr': 'ignored, needs a network'}
+
+
+def libtest_output(items: list) -> str:
+    """What a libtest binary prints (terse=off, no --report-time) for the scripted results."""
+    out = ['', 'running %d test%s' % (len(items), '' if len(items) == 1 else 's')]
+    failed = []
+    n = {'ok': 0, 'fail': 0, 'ign': 0}
+    for i, item in enumerate(items, 1):
+        kind, _, res = item.partition('.')
+        name = _RUST_NAMES.get(kind, _RUST_NAMES['u']) % (i if not kind.startswith('d') else 10 * i + 3)
+        out.append('test %s ... %s' % (name, _RUST_RES.get(res, 'ok')))
+        n['ign' if res.startswith('ign') else res if res in n else 'ok'] += 1
+        if res == 'fail':
+            failed.append(name)
+    if failed:
+        out += ['', 'failures:', '']
+        for name in failed:
+            bare = name.split(' - should panic')[0].split(' - compile')[0]
+            out.append('---- %s stdout ----' % bare)
+            if 'should panic' in name:
+                out += ['note: test did not panic as expected', '']
+            elif 'compile fail' in name:
+                out += ['Test compiled successfully, but it\'s marked `compile_fail`.', '']
+            else:
+                out += ["thread '%s' panicked at src/lib.rs:7:9:" % bare, 'assertion `left == right` failed', '']
+        out += ['', 'failures:'] + ['    ' + x.split(' - should panic')[0].split(' - compile')[0] for x in failed]
+    out += ['', 'test result: %s. %d passed; %d failed; %d ignored; 0 measured; 0 filtered out; finished in 0.00s'
+            % ('FAILED' if failed else 'ok', n['ok'], n['fail'], n['ign']), '']
+    return '\n'.join(out) + '\n'
+
+
 def main() -> int:
     argv = sys.argv[1:]
     if not argv:
@@ -89,8 +170,11 @@ def main() -> int:
         sys.stderr.write('C12_LOG not set\n')
         return 2
     script = {}
+    gtest_xml = None
     for a in argv[1:]:
-        if '=' in a:
+        if a.startswith('--gtest_output=xml:'):
+            gtest_xml = a[len('--gtest_output=xml:'):]      # injected by the harness, not part of the script
+        elif '=' in a:
             k, v = a.split('=', 1)
             script[k] = v
     if not script:
@@ -139,6 +223,9 @@ def main() -> int:
         signal.signal(signal.SIGTERM, on_term_ignore)
 
     ev('START')
+    xml_mode = pick('xml', 'none') if gtest_xml else 'none'
+    if xml_mode in ('full', 'lie', 'cut'):
+        write_report(gtest_xml, tid, rc == 0 if xml_mode != 'lie' else rc != 0, cut=True)
     leak_ms = float(script.get('leak', '0') or 0)
     if leak_ms > 0:
         try:
@@ -204,6 +291,21 @@ def main() -> int:
             sys.stdout.flush()
         except OSError:
             pass
+    rust = script.get('rust')
+    if rust is not None:
+        try:
+            sys.stdout.write(libtest_output([x for x in rust.split(',') if x]))
+            sys.stdout.flush()
+        except OSError:
+            pass
+    if xml_mode == 'full':
+        write_report(gtest_xml, tid, rc == 0, cut=False)
+    elif xml_mode == 'lie':
+        write_report(gtest_xml, tid, rc != 0, cut=False)
+    elif xml_mode == 'empty':
+        write_file(gtest_xml, b'')
+    elif xml_mode == 'garbage':
+        write_file(gtest_xml, b'\x00\x01PK\x03\x04 this is no report <<< & \xff\xfe\n')
     ev('END')
     if rc < 0:
         try:
